@@ -74,7 +74,9 @@ impl RootFile {
                 Ok(block) => {
                     // Skip empty blocks -- they can appear between valid blocks.
                     // EOF termination is handled by the position check above.
-                    if block.num_records() > 0 {
+                    // A header with an implausible record count is read without
+                    // records: such a block is empty as well.
+                    if !block.records.is_empty() {
                         blocks.push(block);
                     }
                 }
@@ -87,6 +89,16 @@ impl RootFile {
                     break;
                 }
             }
+        }
+
+        // A manifest without a single record cannot be written back
+        // (RootBuilder::build and validate() refuse it): it is not a root file.
+        // This is also what is left of an input whose first block header
+        // carries an implausible record count.
+        if blocks.is_empty() {
+            return Err(RootError::CorruptedBlockHeader(
+                "No blocks with records found".to_string(),
+            ));
         }
 
         // Build lookup tables
@@ -384,6 +396,22 @@ mod tests {
 
         let data = builder.build().expect("Operation should succeed");
         RootFile::parse(&data).expect("Operation should succeed")
+    }
+
+    #[test]
+    fn test_parse_without_records_is_error() {
+        // parse() used to accept these although build() cannot write them back
+        // ("No blocks to build"): one empty V1 block, and a V2 header alone
+        assert!(RootFile::parse(&[0u8; 12]).is_err());
+
+        // a block header that claims 0x10000002 records is read without records
+        let mut implausible = vec![0u8; 12];
+        implausible[..4].copy_from_slice(&0x1000_0002u32.to_le_bytes());
+        assert!(RootFile::parse(&implausible).is_err());
+
+        let mut header_only = b"TSFM".to_vec();
+        header_only.extend_from_slice(&[0u8; 8]);
+        assert!(RootFile::parse(&header_only).is_err());
     }
 
     #[test]
